@@ -141,10 +141,13 @@ class Check:
             'exhaustive': all(r['complete'] for r in self.runs) and not self.inconclusive,
             'runs': self.runs,
             'solver': {'name': 'z3 (python API, tooling venv)', 'queries': sum(r['solver_queries'] for r in self.runs),
-                       'seconds': round(sum(r['solver_s'] for r in self.runs), 1)},
+                       'seconds': round(sum(r['solver_s'] for r in self.runs), 1),
+                       'cross_check': {'second_solver': 'cvc5 1.0 (SMT-LIB2 export of sampled queries)', 'queries': self.model_hits.get('__xcheck_total__', 0),
+                                       'agree': self.model_hits.get('__xcheck_agree__', 0), 'no_answer_in_5s': self.model_hits.get('__xcheck_noanswer__', 0),
+                                       'note': 'a disagreement makes the run inconclusive (exit 2)'}},
             'mir_bodies_executed': len(self.bodies),
             'mir_bodies': sorted(self.bodies)[:400],
-            'library_models_hit': self.model_hits,
+            'library_models_hit': {k: v for k, v in self.model_hits.items() if not k.startswith('__xcheck')},
             'trusted_base': self.trusted,
             'known_findings_matched': [dict(site=k['site'], family=k['family']) for k, v in kf_lines[:20]],
             'violations_reported': vio_paths,
